@@ -69,15 +69,16 @@ Export == pc = "done" => PrintT(<<"CASE", ToJson(c)>>)
 
 (* ---- Impl => Req ---- *)
 ImplRefinesReq == pc = "done" => \A cl \in ReqClauses : ClauseHolds(cl, c, Out, calls)
-ImplCallsDistinct == ClauseHolds("CallsOnDistinctInputs", c, <<>>, calls)
-ImplMatrix == /\ \A p \in mat : <<p[2], p[1]>> \in mat /\ p[1] # p[2] /\ Edge(c, p[1], p[2])
+ImplCallsDistinct == pc = "pairs" => ClauseHolds("CallsOnDistinctInputs", c, <<>>, calls)      \* calls is frozen afterwards
+ImplMatrix == (pc = "pairs" \/ (pc = "label" /\ nl = 0)) =>                 \* mat is frozen afterwards
+              /\ \A p \in mat : <<p[2], p[1]>> \in mat /\ p[1] # p[2] /\ Edge(c, p[1], p[2])
               /\ pc # "pairs" => \A i, j \in Nodes(c) : Edge(c, i, j) => <<i, j>> \in mat
 \* labelling never joins unconnected nodes; a finished label is a whole component
-ImplLabelSound == pc \in {"label", "group", "done"} =>
+ImplLabelSound == pc \in {"label", "group"} /\ gi = 1 =>                  \* lab is frozen once grouping starts
     LET cf == CompF(c) IN
     /\ \A i, j \in Nodes(c) : (lab[i] # -1 /\ lab[i] = lab[j]) => j \in cf[i]
     /\ \A i \in Nodes(c) : (lab[i] # -1 /\ (lab[i] < nl - 1 \/ fr = {})) => \A j \in cf[i] : lab[j] = lab[i]
-ImplEveryPairOnce == pc # "pairs" => calls = PS
+ImplEveryPairOnce == (pc = "label" /\ nl = 0) => calls = PS
 (* ---- laws of Req, once per graph ---- *)
 Laws == (pc = "label" /\ nl = 0 /\ fr = {}) =>        \* the state after the last pair (not the initial state: TLC computes those single-threaded)
            /\ LawEquivalence(c) /\ LawContainsEdges(c) /\ LawLeast(c) /\ LawWarshall(c) /\ LawNoEdgeNoLink(c)
